@@ -39,7 +39,7 @@ notes={
 }
 m={
  "version":1,
- "setup_cmd":"cd /verif/harness && CARGO_NET_OFFLINE=true cargo build --release --bin pvf",
+ "setup_cmd":"cd /verif/harness && CARGO_NET_OFFLINE=true cargo build --release --bin pvf && CARGO_NET_OFFLINE=true cargo build --profile relnd --bin pvf",
  "hooks":{"guard":"cargo feature __verif of the polytune crate (cfg(feature = \"__verif\"))","enable":"the harness crate /verif/harness depends on /repo by path with features [\"__verif\",\"__bench\"]; bin/check rebuilds it against /repo's working tree before every run","baseline_off_cmd":"cd /repo && cargo nextest run --workspace --no-fail-fast --test-threads 8 --offline || cargo test --workspace --no-fail-fast --offline","source_commits":hook_commits,"add_only":True},
  "engines":[
   {"name":"pvf-sim","path":"/verif/harness/src/sim","serves_properties":["C01","C02","C03","C04","C05","C06","C07","C08","C09","C10","C11","C12","C18","C19"],"kind_free_text":"deterministic single-threaded executor + scheduler-controlled, recording, adversarial network; proptest strategies; wire codec with structure-aware mutators"},
